@@ -99,6 +99,10 @@ Verdict(t, e) ==
          ELSE IF e.out.err # "" THEN "Raised"
          ELSE IF Len(e.out.h) # o.n THEN "HeightLength"
          ELSE IF \E k \in 1..o.n : e.out.h[k] # Height(G, k) THEN "HeightOK"
+         \* the other entry points to the same quantity: per position, dictionary (with its padding entry 0 at -1), maximum
+         ELSE IF Len(e.out.hf) # o.n \/ \E k \in 1..o.n : e.out.hf[k] # Height(G, k) THEN "HeightFunctionOK"
+         ELSE IF Len(e.out.hd) # o.n \/ e.out.hd_first # 0 \/ \E k \in 1..o.n : e.out.hd[k] # Height(G, k) THEN "HeightDictOK"
+         ELSE IF e.out.hmax # Max({Height(G, k) : k \in 1..o.n}) THEN "HeightMaxOK"
          ELSE "ok"
     [] e.fn = "height_graph" ->
          \* height_dict / height_max / determine_n_emitters on a graph: out.h heights, out.hmax, out.ne
